@@ -12,6 +12,17 @@ Checker side  `deserialize_transition` (kind -> class) and the channel construct
             src/mc/transition/Transition*.cpp: the sequence of `channel.unpack<T>()`, through the `if (type == ..)`
             chain of CondvarTransition and the member loop of TestAny/WaitAny.
 A statement that mentions the channel and is not understood aborts the translation (TranslationError).
+
+ROLES.  Equal wire TYPES do not make two schemas agree: `pack(mutex id); pack(cond id)` against
+`condvar_ = unpack; mutex_ = unpack` has the types right and the meaning wrong.  Every field therefore also carries a
+ROLE: on the application side the name of the entity whose id / pid / attribute is packed (taken from the packed
+expression: `acquisition_->get_cond()->get_id()` -> cond, `owner->get_pid()` -> owner, `timeout_ > 0` -> timeout ...),
+on the checker side the name of the member the unpacked value ends in (`condvar_ = channel.unpack..` -> cond; through
+a local when the value is converted first: `auto recv = channel.unpack<aid_t>(); owner_ = recv == -1 ? ..` -> owner).
+Names are normalised through ROLE_SYNONYMS; a name that is not in that table, an expression shape that is not
+understood, or a local that never reaches a member aborts the translation (a broken tie, not a wildcard).  The only
+declared wildcard is a literal constant on the application side (`pack<bool>(false)`): the application gives it no
+meaning.
 """
 import hashlib
 import json
@@ -45,6 +56,100 @@ def prim_of(cty, where):
     if re.fullmatch(r"(simgrid::)?(mc::)?Transition::Type|Type", t):
         return "tag"
     raise TranslationError("%s: C++ type %r has no wire type in the model" % (where, cty))
+
+
+# ------------------------------------------------------------------------------------------------ roles
+ROLE_SYNONYMS = {
+    "mutex": "mutex", "cond": "cond", "condvar": "cond", "sem": "sem", "semaphore": "sem", "bar": "barrier",
+    "barrier": "barrier", "comm": "comm", "mbox": "mbox", "mailbox": "mbox", "tag": "tag", "fun_call": "call_location",
+    "call_location": "call_location", "owner": "owner", "src_actor": "sender", "sender": "sender",
+    "dst_actor": "receiver", "receiver": "receiver", "other": "target", "target": "target", "child": "child",
+    "timeout": "timeout", "granted": "granted", "is_granted": "granted", "capacity": "capacity", "min": "min",
+    "max": "max", "is_sender": "is_sender", "kind==SEND": "is_sender", "activities.size": "count", "size": "count",
+    "mess": "mess", "queue": "queue"}
+CONST_ROLE = "_const"
+
+
+class P(str):
+    """a wire type (compares as the plain type name) that remembers the role of the field and where it comes from"""
+    def __new__(cls, prim, role=None, src=""):
+        o = str.__new__(cls, prim)
+        o.role, o.src = role, src
+        return o
+
+
+def canon_role(name, where):
+    n = name.strip()
+    n = re.sub(r"\(\)$", "", n)
+    n = re.sub(r"^get_", "", n).rstrip("_")
+    if n not in ROLE_SYNONYMS:
+        raise TranslationError("%s: no role known for the name %r (extend ROLE_SYNONYMS after reading the code)" % (where, name))
+    return ROLE_SYNONYMS[n]
+
+
+def split_top(expr, seps):
+    """split at the first top-level occurrence of one of `seps` (longest first) -> (left, sep, right) or None"""
+    depth, i = 0, 0
+    while i < len(expr):
+        c = expr[i]
+        if c in "([{":
+            depth += 1
+        elif c in ")]}":
+            depth -= 1
+        elif depth == 0:
+            for sp in seps:
+                if expr.startswith(sp, i) and not (sp == "-" and expr.startswith("->", i)) and \
+                        not (sp in "<>" and (expr.startswith("->", i - 1) or expr.startswith("<<", i))):
+                    return expr[:i], sp, expr[i + len(sp):]
+        i += 1
+    return None
+
+
+def strip_parens(e):
+    e = e.strip()
+    while e.startswith("(") and match_close(e, 0, "(", ")") == len(e) - 1:
+        e = e[1:-1].strip()
+    return e
+
+
+def app_role(expr, where):
+    """role of a packed expression (see the module docstring)"""
+    e = strip_parens(expr)
+    if re.fullmatch(r"-?\d+|true|false|nullptr", e):
+        return CONST_ROLE
+    t = split_top(e, ["?"])
+    if t:
+        rest = split_top(t[2], [":"])
+        if not rest:
+            raise TranslationError("%s: ternary without ':' in %r" % (where, expr))
+        rs = [r for r in (app_role(rest[0], where), app_role(rest[2], where)) if r != CONST_ROLE]
+        if not rs or any(r != rs[0] for r in rs):
+            raise TranslationError("%s: the two branches of %r do not name the same thing" % (where, expr))
+        return rs[0]
+    t = split_top(e, ["=="])
+    if t:
+        return canon_role(t[0].strip().rstrip("_") + "==" + re.split(r"::", t[2].strip())[-1], where)
+    t = split_top(e, [">=", "<=", ">", "<"])
+    if t:
+        if not re.fullmatch(r"-?\d+(\.\d+)?", t[2].strip()):
+            raise TranslationError("%s: comparison %r is not against a literal" % (where, expr))
+        return app_role(t[0], where)
+    t = split_top(e, ["-", "+"])
+    if t and t[0].strip():
+        return app_role(t[0], where)       # `capacity - ongoing acquisitions`: still the (remaining) capacity
+    chain = [c.strip() for c in re.split(r"->|\.", e)]
+    if not all(re.fullmatch(r"\w+(\(\))?", c) for c in chain):
+        raise TranslationError("%s: packed expression %r is not understood" % (where, expr))
+    last = chain[-1]
+    if last in ("get_id()", "get_pid()"):
+        if len(chain) < 2:
+            raise TranslationError("%s: %r: id of what?" % (where, expr))
+        return canon_role(chain[-2], where)
+    if last == "get_mailbox_id()":
+        return "mbox"
+    if last == "size()":
+        return canon_role(chain[-2].rstrip("_") + ".size", where)
+    return canon_role(last, where)
 
 
 def blank_comments(src):
@@ -140,6 +245,17 @@ class Body:
 
     def __init__(self, src, start, end, mode, where, ast=None, helpers=()):
         self.s, self.i, self.end, self.mode, self.where, self.ast, self.helpers = src, start, end, mode, where, ast, helpers
+        self.locals = {}        # checker side: local variable -> the field last unpacked into it (role still unknown)
+
+    def name_locals(self, text, role_of_member=None):
+        """a statement without channel traffic: `member_ = f(local)` names the field the local came from"""
+        m = re.match(r"\s*(\w+_)\s*=\s*(.*)$", text, re.S)
+        if not m:
+            return
+        for name, fld in list(self.locals.items()):
+            if re.search(r"\b%s\b" % re.escape(name), m.group(2)):
+                fld.role = canon_role(m.group(1), self.where)
+                del self.locals[name]
 
     def err(self, msg):
         raise TranslationError("%s: %s near `%s`" % (self.where, msg, self.s[self.i:self.i + 70].replace("\n", " ")))
@@ -163,6 +279,7 @@ class Body:
         if self.s[self.i] == "{":
             e = match_close(self.s, self.i)
             sub = Body(self.s, self.i + 1, e, self.mode, self.where, self.ast, self.helpers)
+            sub.locals = self.locals
             r = sub.prog()
             self.i = e + 1
             return r
@@ -176,6 +293,7 @@ class Body:
             self.i += m.end()
             e = match_close(s, self.i)
             sub = Body(s, self.i + 1, e, self.mode, self.where, self.ast, self.helpers)
+            sub.locals = self.locals
             cases = {}
             while True:
                 sub.ws()
@@ -230,6 +348,10 @@ class Body:
         m = re.match(r"for\s*\(", s[self.i:])
         if m:
             pe = match_close(s, self.i + m.end() - 1, "(", ")")
+            for name, fld in list(self.locals.items()):      # `for (i = 0; i < size; i++)`: the local is the member count
+                if re.search(r"<\s*%s\b" % re.escape(name), s[self.i:pe]):
+                    fld.role = "count"
+                    del self.locals[name]
             self.i = pe + 1
             body = self.block_or_stmt()
             return [("rep", body)] if body else []
@@ -262,6 +384,8 @@ class Body:
         if "deserialize_transition" in text and self.mode == "unpack":
             return [("any",)]
         if "channel" not in text:
+            if self.mode == "unpack":
+                self.name_locals(text)
             return []
         if re.match(r"\s*(XBT_DEBUG|XBT_VERB|XBT_INFO|XBT_CRITICAL|xbt_assert)\s*\(", text):
             return []
@@ -284,7 +408,7 @@ class Body:
                 if arg == "type_":
                     return [("tag", None)]
                 self.err("Type-valued pack whose argument is neither a literal kind nor type_")
-            return [("f", p_ast)]
+            return [("f", P(p_ast, app_role(arg, self.where), arg))]
         else:
             ms = re.findall(r"channel\.unpack\s*<\s*([^>]+?)\s*>\s*\(\s*\)", text)
             if len(ms) != 1 or text.count("channel") != 1:
@@ -292,7 +416,15 @@ class Body:
             p = prim_of(ms[0], self.where)
             if p == "tag":
                 self.err("unexpected Type-valued unpack")
-            return [("f", p)]
+            mm = re.match(r"\s*(?:(?:const\s+)?(?:auto|unsigned|int|bool|aid_t|long|std::string)\s+)?(\w+)\s*=[^=]", text)
+            if not mm:
+                self.err("the unpacked value is not assigned to anything the translator can name")
+            fld = P(p, None, text.strip())
+            if mm.group(1).endswith("_"):
+                fld.role = canon_role(mm.group(1), self.where)
+            else:
+                self.locals[mm.group(1)] = fld      # named by a later `member_ = f(local)` / loop bound
+            return [("f", fld)]
 
 
 def find_functions(src, pattern):
@@ -479,27 +611,44 @@ def translate(repo, sgbuild, cache_dir):
     return emit(kinds, app, checker), {"kinds": kinds, "app": app, "checker": checker}
 
 
-def lean_fields(fs, checker, kinds):
-    out = []
+def role_of(x, where):
+    r = getattr(x, "role", None)
+    if r is None:
+        raise TranslationError("%s: the field `%s` has no role (an unpacked local that never reaches a member?)" % (
+            where, getattr(x, "src", x)))
+    return r
+
+
+def lean_fields(fs, checker, kinds, where="?"):
+    """-> (types, roles) as Lean list literals"""
+    out, rout = [], []
     # the member count is the `unsigned` packed/unpacked just before the loop: it is part of `.rep` in the Lean schema
     fs = list(fs)
     for i, x in enumerate(fs):
         if not isinstance(x, str):
             if i == 0 or fs[i - 1] != "u32":
                 raise TranslationError("member loop not preceded by its unsigned count")
+            if role_of(fs[i - 1], where) != "count":
+                raise TranslationError("%s: the unsigned before the member loop is `%s`, not the number of members" % (
+                    where, fs[i - 1].src))
             fs[i - 1] = None
     for x in fs:
         if x is None:
             continue
         if isinstance(x, str):
             out.append(".prim .%s" % x)
+            rout.append('.prim "%s"' % role_of(x, where))
         elif x[0] == "rep":
             out.append(".rep [%s]" % ", ".join("(%d, [%s])" % (kinds.index(t), ", ".join("." + p for p in ps)) for t, ps in x[1]))
+            rout.append(".rep [%s]" % ", ".join("(%d, [%s])" % (kinds.index(t), ", ".join('"%s"' % role_of(p, where) for p in ps))
+                                                for t, ps in x[1]))
         elif x[0] == "any":
             # the checker accepts any member kind that deserialize_transition accepts and that has a flat schema
-            alts = [(kinds.index(k), v) for k, v in checker.items() if v is not None and all(isinstance(p, str) for p in v)]
-            out.append(".rep [%s]" % ", ".join("(%d, [%s])" % (i, ", ".join("." + p for p in ps)) for i, ps in alts))
-    return "[" + ", ".join(out) + "]"
+            alts = [(kinds.index(k), v, k) for k, v in checker.items() if v is not None and all(isinstance(p, str) for p in v)]
+            out.append(".rep [%s]" % ", ".join("(%d, [%s])" % (i, ", ".join("." + p for p in ps)) for i, ps, _ in alts))
+            rout.append(".rep [%s]" % ", ".join("(%d, [%s])" % (i, ", ".join('"%s"' % role_of(p, "checker " + k) for p in ps))
+                                                for i, ps, k in alts))
+    return "[" + ", ".join(out) + "]", "[" + ", ".join(rout) + "]"
 
 
 def emit(kinds, app, checker):
@@ -513,18 +662,25 @@ def emit(kinds, app, checker):
     w("def kindNames : List String := [%s]\n" % ", ".join('"%s"' % k for k in kinds))
     w("/-- what the checker-side constructor selected by `deserialize_transition` unpacks after the Type tag;")
     w("    `none`: `deserialize_transition` (or the constructor) dies for this kind -/")
+    cl = {k: (None if checker[k] is None else lean_fields(checker[k], checker, kinds, "checker " + k)) for k in kinds}
     w("def checkerSchema : Nat → Option (List FieldTy)")
     for i, k in enumerate(kinds):
-        v = checker[k]
-        w("  | %d => %s   -- %s" % (i, "none" if v is None else "some " + lean_fields(v, checker, kinds), k))
+        w("  | %d => %s   -- %s" % (i, "none" if cl[k] is None else "some " + cl[k][0], k))
     w("  | _ => none\n")
-    w("/-- one entry per (observer class, variant, kind it is serialised under): what `serialize` packs after the tag -/")
+    w("/-- the member each unpacked value ends in (normalised name), same positions as `checkerSchema` -/")
+    w("def checkerRoles : Nat → Option (List FieldRole)")
+    for i, k in enumerate(kinds):
+        w("  | %d => %s   -- %s" % (i, "none" if cl[k] is None else "some " + cl[k][1], k))
+    w("  | _ => none\n")
+    w("/-- one entry per (observer class, variant, kind it is serialised under): what `serialize` packs after the tag")
+    w("    (`app`) and what each packed expression denotes (`roles`) -/")
     names = []
     for obs, lab, k, fs in app:
         nm = "app_%s%s_%s" % (obs, re.sub(r"\W+", "_", lab).rstrip("_"), k)
         names.append(nm)
-        w("def %s : Entry := { observer := \"%s%s\", kind := %d, dies := %s, app := %s }   -- %s" % (
-            nm, obs, lab, kinds.index(k), "true" if lab.endswith("!dies") else "false", lean_fields(fs, checker, kinds), k))
+        ty, ro = lean_fields(fs, checker, kinds, obs + lab)
+        w("def %s : Entry := { observer := \"%s%s\", kind := %d, dies := %s, app := %s, roles := %s }   -- %s" % (
+            nm, obs, lab, kinds.index(k), "true" if lab.endswith("!dies") else "false", ty, ro, k))
     w("\ndef appTable : List Entry := [%s]\n" % ", ".join(names))
     w("end SgVerif.C43")
     return "\n".join(o) + "\n"
